@@ -63,6 +63,19 @@ theorem cutSub_scheme (scheme rest : Bytes) (h : schemeOK scheme = true) :
 theorem dataPrefix_isPrefixOf (p : Bytes) : dataPrefix.isPrefixOf (dataPrefix ++ p) = true := by
   simp [dataPrefix, List.isPrefixOf]
 
+/-- any spelling of the scheme: five bytes that lower-case to `data:` -/
+theorem isDataURI_of_spelling (sch p : Bytes) (h : sch.map Ascii.toLower = dataPrefix) :
+    isDataURI (sch ++ p) = true := by
+  have hl : sch.length = 5 := by
+    have := congrArg List.length h
+    simpa [dataPrefix] using this
+  have ht : (sch ++ p).take 5 = sch := by
+    rw [← hl]; exact List.take_left
+  simp [isDataURI, ht, h]
+
+theorem isDataURI_dataPrefix (p : Bytes) : isDataURI (dataPrefix ++ p) = true :=
+  isDataURI_of_spelling dataPrefix p (by decide)
+
 /-! ### per-flag renderings -/
 
 theorem parseUserinfo_raw (u : UserPub) (pw : Bytes) (h : u.ok) :
@@ -174,7 +187,7 @@ theorem describe_file (f : FilePub) (payload : Bytes) (h : f.ok) :
     simp only [FilePub.ok] at h
     simp [describeValue, FilePub.raw, FilePub.shown, redactBase64, h]
   | data =>
-    simp [describeValue, FilePub.raw, FilePub.shown, redactBase64, dataPrefix_isPrefixOf]
+    simp [describeValue, FilePub.raw, FilePub.shown, redactBase64, isDataURI_dataPrefix]
 
 /-! ### lists of values -/
 
@@ -315,9 +328,9 @@ theorem infix_echoedValue (src : Source) (slice : Bool) (raw : Bytes)
 
 theorem redactDataURI_data (payload : Bytes) :
     redactDataURI (dataPrefix ++ payload) = dataPrefix ++ placeholder := by
-  simp [redactDataURI, dataPrefix_isPrefixOf]
+  simp [redactDataURI, isDataURI_dataPrefix]
 
-theorem redactDataURI_path (p : Bytes) (h : dataPrefix.isPrefixOf p = false) : redactDataURI p = p := by
+theorem redactDataURI_path (p : Bytes) (h : isDataURI p = false) : redactDataURI p = p := by
   simp [redactDataURI, h]
 
 /-- what is printed of a file-valued flag is what may be shown of it -/
